@@ -1,4 +1,5 @@
 """setup_cmd: warm the build cache from files on disk only (offline)."""
+import os
 import sys
 import time
 from concurrent.futures import ThreadPoolExecutor
@@ -32,6 +33,16 @@ def main():
             return None
         except build.BuildError as ex:
             return "%s: %s" % (st["name"], ex)
+    # harnesses that Python stages build themselves (not visible as `kind: harness` stages)
+    jobs += [{"name": "c05_fuzz", "variant": "fuzz", "extra_link": ["-fsanitize=fuzzer"]},
+             {"name": "c09_fuzz", "variant": "fuzz", "extra_link": ["-fsanitize=fuzzer"]},
+             {"name": "c06", "variant": "asan"}, {"name": "c09", "variant": "asan"}, {"name": "c10", "variant": "asan"},
+             {"name": "c11", "variant": "asan"}]
+    try:
+        build.build_c("c15_child")
+    except Exception as ex:  # noqa: BLE001
+        print("SETUP WARNING: c15_child:", ex)
+    jobs = [j for j in jobs if os.path.exists(os.path.join(build.VERIF, "harness", j["name"] + ".cc"))]
     with ThreadPoolExecutor(max_workers=8) as ex:
         errs = [e for e in ex.map(one, jobs) if e]
     for e in errs:
